@@ -63,6 +63,19 @@ def replay(case):
         out = des.encrypt(s, k); out2 = des.decrypt(s, k, at_round=2, after_step=9)
         ok = out.tolist() == D.cipher_bytes(st, ky) and out2.tolist() == D.cipher_bytes(st, ky, 'decrypt', 0, 2, 9)
         return dict(reproduced=not ok, got=out.tolist(), expected=D.cipher_bytes(st, ky))
+    if kind == 'history_inplace':
+        rnd = random.Random(7); ky = [rnd.randrange(256) for _ in range(8)]; k = np.array(ky, dtype='uint8')
+        buf = np.zeros((2, 8), dtype='uint8'); kept = []
+        for t in range(3):
+            rows = [[rnd.randrange(256) for _ in range(8)] for _ in range(2)]
+            buf[:] = rows                                           # the same array object, refilled in place
+            for mode, kw in (('encrypt', {}), ('decrypt', {}), ('encrypt', dict(at_round=0, after_step=0)), ('encrypt', dict(at_round=3, after_step=4))):
+                out = getattr(des, mode)(buf, k, **kw)
+                exp = [D.cipher_bytes(r, ky, mode, 0, kw.get('at_round', 15), kw.get('after_step', 9)) for r in rows]
+                kept.append((out, exp, t, mode, kw))
+        for out, exp, t, mode, kw in kept:
+            if out.tolist() != exp: return dict(reproduced=True, detail='%s %s on refill %d of the same buffer: got %s expected %s' % (mode, kw, t, out.tolist(), exp))
+        return dict(reproduced=False)
     return dict(reproduced=None, error='unknown case kind')
 
 def bounded(n, seed):
@@ -84,6 +97,8 @@ def bounded(n, seed):
             ev += 1
             r = replay(dict(kind='history'))
             if r['reproduced']: fails.append(dict(kind='history', detail=r))
+    ev += 1; r = replay(dict(kind='history_inplace'))
+    if r['reproduced']: fails.append(dict(kind='history_inplace', detail=r))
     return dict(evaluations=ev, failures=len(fails), failing=fails[:5])
 
 if __name__ == '__main__':
